@@ -29,40 +29,76 @@ def run(ck, m):
         ck.rule(k, v)
     P = m.prog
     lb, lsw = repl.fanout_loop(m)
-    # allocator: fn(String, &Arc<Databases>, &mut BufWriter<File>) -> u64
-    alloc = [b for b in P.user_bodies() if b.kind == 'fn' and b.locals[0] == 'u64' and b.argc == 3 and b.locals[1] == 'std::string::String'
-             and 'BufWriter' in b.locals[3]]
+    # allocator: the function that inserts a new (key -> id) pair into the key map, the id taken from the map's length
+    KM = 'std::collections::HashMap::<std::string::String, u64>::'
+    alloc = [b for b in P.user_bodies() if b.kind in ('fn', 'method')
+             and any(t['f'].get('dargs', '').startswith(KM + 'insert') for _, t in b.calls())
+             and any(t['f'].get('dargs', '').startswith(KM + 'len') for _, t in b.calls())]
     if len(alloc) != 1:
-        ck.undecided('C16.c', 'allocator', 'anchor', 'expected one key-id allocator, found %d' % len(alloc))
+        ck.undecided('C16.c', 'allocator', 'anchor', 'expected one key-id allocator (insert + len on the key map), found %d' % len(alloc))
         return
     ab = alloc[0]
     callers = P.callers().get(ab.id, [])
-    ok = bool(callers) and all(cb.id == lb.id or cb.id.startswith(lb.id + '::') for cb, _ in callers)
+
+    def in_loop(body, depth=0):
+        """the body is the replication loop, nested in it, or a helper whose only callers are"""
+        if body.id == lb.id or body.id.startswith(lb.id + '::'):
+            return True
+        cs = P.callers().get(body.id, [])
+        return depth < 3 and bool(cs) and all(in_loop(cb, depth + 1) for cb, _ in cs)
+    ok = bool(callers) and all(in_loop(cb) for cb, _ in callers)
     ck.ob('C16.c', short(ab.id), 'single-consumer-callers', ok,
           'key ids are allocated only from the replication loop (%d call sites)' % len(callers) if ok else
-          'key ids are also allocated from %s' % sorted({short(cb.id) for cb, _ in callers if not cb.id.startswith(lb.id)}), '%s:%s' % (ab.file, ab.line))
-    # the id comes from the map length only on the branch where the key is new, under both key maps' write locks
+          'key ids are also allocated from %s' % sorted({short(cb.id) for cb, _ in callers if not in_loop(cb)}), '%s:%s' % (ab.file, ab.line))
     # ---- (a) ---------------------------------------------------------------------------
-    appends = [(bi, t) for bi, t in lb.calls() if 'op_log' in callee(t) and 'try_write' in callee(t)]
+    # appends that use an allocated id: in the loop, or in a helper the loop calls
     n = 0
-    for bi, t in appends:
-        keyarg = t['args'][2]
-        roots = origins(lb, keyarg, stop_at_calls=True)
-        from_alloc = [r[1] for r in roots if r[0] == 'call' and callee(lb.term(r[1])) == ab.id]
-        consts = [r for r in roots if r[0] == 'const']
-        if from_alloc:
+    users = {cb.id: cb for cb, _ in callers}
+    inv_in_alloc = [bi for bi, t in ab.calls() if callee(t).endswith('invalidate_oplog')]
+    for ub in users.values():
+        appends = [(bi, t) for bi, t in ub.calls() if 'op_log' in callee(t) and 'try_write' in callee(t)]
+        inv_here = [bi for bi, t in ub.calls() if callee(t).endswith('invalidate_oplog')]
+        for bi, t in appends:
+            roots = origins(ub, t['args'][2], stop_at_calls=True)
+            from_alloc = [r[1] for r in roots if r[0] == 'call' and callee(ub.term(r[1])) == ab.id]
+            if not from_alloc:
+                continue
             n += 1
-            ok = all(lb.dominates(x, bi) for x in from_alloc)
-            ck.ob('C16.a', short(lb.id), 'id-before-append', ok,
-                  'the key id is allocated (and the flag invalidated) before the record is appended', lb.loc(bi))
-    ck.floor('C16.a', n, 3, 'oplog appends that use an allocated key id')
-    inv = [bi for bi, t in ab.calls() if callee(t).endswith('invalidate_oplog')]
-    ins = [bi for bi, t in ab.calls() if t['f'].get('dargs', '').startswith('std::collections::HashMap::<std::string::String, u64>::insert')]
-    ok = bool(inv) and bool(ins) and all(any(ab.dominates(i, r) or ab.postdominates(r, i) for r in inv) for i in ins)
-    # invalidation sits on the new-key path and before the function returns the id
-    ck.ob('C16.a', short(ab.id), 'new-id-invalidates-flag', ok,
-          'a new key id is always accompanied by invalidate_oplog before the id is returned' if ok else
-          'a new key id can be returned without invalidating the on-disk flag', '%s:%s' % (ab.file, ab.line))
+            ok = all(ub.dominates(x, bi) for x in from_alloc)
+            why = 'the key id is allocated (and the flag invalidated) before the record is appended'
+            if ok and not inv_in_alloc:
+                # the invalidation lives here, behind an is-new test: that test (the branch controlling the invalidation)
+                # must be passed before the append — an append that comes first can be killed, or refused (`?`), before
+                # the flag is written, leaving a log flagged valid that names an id no keys file knows
+                ctrl_before = False
+                for x in inv_here:
+                    if ub.dominates(bi, x) or bi == x:
+                        continue            # invalidation after the append
+                    ctrl = [c for c in ub.reachable() if ub.term(c)['k'] == 'switch' and ub.dominates(c, x) and c != x]
+                    if any(ub.dominates(c, bi) for c in ctrl) and any(ub.dominates(a, x) for a in from_alloc):
+                        ctrl_before = True
+                ok = ctrl_before
+                why = ('the is-new test and the invalidation it guards come before the append' if ok else
+                       'the record naming the new key id is appended before the flag is invalidated (invalidation sites in %s: %s): a kill, '
+                       'or a refused append returning early, leaves the log flagged valid while it names a key id no keys file knows'
+                       % (short(ub.id), [ub.loc(x) for x in inv_here]))
+            ck.ob('C16.a', short(ub.id) if ub.id != lb.id else short(lb.id), 'id-before-append', ok, why, ub.loc(bi))
+    ck.floor('C16.a', n, 1 if len(users) == 1 and lb.id not in users else 3, 'oplog appends that use an allocated key id')
+    ins = [bi for bi, t in ab.calls() if t['f'].get('dargs', '').startswith(KM + 'insert')]
+    if inv_in_alloc:
+        inv = inv_in_alloc
+        ok = bool(ins) and all(any(ab.dominates(i, r) or ab.postdominates(r, i) for r in inv) for i in ins)
+        # invalidation sits on the new-key path and before the function returns the id
+        ck.ob('C16.a', short(ab.id), 'new-id-invalidates-flag', ok,
+              'a new key id is always accompanied by invalidate_oplog before the id is returned' if ok else
+              'a new key id can be returned without invalidating the on-disk flag', '%s:%s' % (ab.file, ab.line))
+    else:
+        for ub in users.values():
+            inv_here = [bi for bi, t in ub.calls() if callee(t).endswith('invalidate_oplog')]
+            acalls = [bi for bi, t in ub.calls() if callee(t) == ab.id]
+            ck.ob('C16.a', short(ub.id), 'new-id-invalidates-flag', bool(inv_here) and all(any(ub.dominates(a, x) for x in inv_here) for a in acalls),
+                  'the caller of the allocator invalidates the flag for a new id' if inv_here else
+                  '%s allocates key ids but neither it nor the allocator invalidates the on-disk flag' % short(ub.id), '%s:%s' % (ub.file, ub.line))
     fw = [b for b in P.user_bodies() if b.id.endswith('get_invalidate_file_write_mode')]
     if fw:
         caps = []
@@ -109,48 +145,53 @@ def run(ck, m):
         ck.ob('C16.b', short(b.id), 'memory-equals-disk', ok,
               '%s stores %s in memory and writes %s to the file' % (name, mem, disk), '%s:%s' % (b.file, b.line))
     # start-up
-    starts = [b for b in P.user_bodies() if any(callee(t).endswith('disk_ops::is_oplog_valid') for _, t in b.calls())
-              and any(callee(t).endswith('db_ops::create_init_dbs') for _, t in b.calls())]
-    if len(starts) == 1:
-        sb = starts[0]
-        vbi = [bi for bi, t in sb.calls() if callee(t).endswith('disk_ops::is_oplog_valid')][0]
-        cbi = [bi for bi, t in sb.calls() if callee(t).endswith('db_ops::create_init_dbs')][0]
-        cleans = [bi for bi, t in sb.calls() if 'clean_op_log_metadata' in callee(t)]
+    try:
+        sb, cbi, db_, vbi, hbi = repl.startup_unit(m)
+    except core.AnchorError as e:
+        ck.undecided('C16.b', 'start-up', 'anchor', str(e))
+        sb = None
+    if sb is not None:
+        cleans = [bi for bi, t in db_.calls() if 'clean_op_log_metadata' in callee(t)]
         # does the clean remove the flag file?  (then the file reads as valid afterwards)
         removes_flag = False
         for bi in cleans:
-            cb = P.bodies.get(callee(sb.term(bi)))
+            cb = P.bodies.get(callee(db_.term(bi)))
             if cb is not None and any('remove_invalidate' in callee(t) for _, t in cb.calls()):
                 removes_flag = True
         arg = sb.term(cbi)['args'][-1]
         bad = []
-        sws = bool_switches(sb, vbi)
-        for r in origins(sb, arg, stop_at_calls=True):
-            if r[0] == 'call' and r[1] == vbi:
-                # the value read is handed on unchanged: wrong on the invalid branch if the clean removed the file
-                if removes_flag:
-                    bad.append('the flag read (false) is handed on although the clean removed the flag file (which now reads valid)')
-            elif r[0] == 'const':
-                pass
+        sws = bool_switches(db_, vbi)
+        handed = origins(sb, arg, stop_at_calls=True)
+        if hbi is None:
+            loc = (arg.get('m') or arg.get('c') or {}).get('l')
+            raw = any(r[0] == 'call' and r[1] == vbi for r in handed)
+        else:
+            # the deciding helper's return value is what is handed on
+            if not any(r[0] == 'call' and r[1] == hbi for r in handed):
+                bad.append('the value handed to Databases does not come from the start-up decision')
+            loc = 0
+            raw = any(r[0] == 'call' and r[1] == vbi for r in core.place_origins(db_, {'l': 0}, stop_at_calls=True))
+        if raw and removes_flag:
+            # the value read is handed on unchanged: wrong on the invalid branch if the clean removed the file
+            bad.append('the flag read (false) is handed on although the clean removed the flag file (which now reads valid)')
         # constant assignments per branch
-        loc = (arg.get('m') or arg.get('c') or {}).get('l')
         for (sbi, tt, ft) in sws:
-            for (dbi, dsi, kind, pl) in _const_defs(sb, loc):
+            for (dbi, dsi, kind, pl) in _const_defs(db_, loc):
                 val = pl
-                if sb.dominates(ft, dbi) and not sb.dominates(tt, dbi):
+                if db_.dominates(ft, dbi) and not db_.dominates(tt, dbi):
                     if removes_flag and val is not True:
                         bad.append('invalid branch stores %s in memory while the cleaned disk reads valid' % val)
                     if not removes_flag and val is not False:
                         bad.append('invalid branch stores %s in memory while the disk flag stays invalid' % val)
-                if sb.dominates(tt, dbi) and not sb.dominates(ft, dbi) and val is not True:
+                if db_.dominates(tt, dbi) and not db_.dominates(ft, dbi) and val is not True:
                     bad.append('valid branch stores %s' % val)
         ck.ob('C16.b', short(sb.id), 'start-up-memory-equals-disk', not bad,
               'the flag handed to Databases equals what the flag file reads as after the start-up decision' if not bad else '; '.join(bad),
               sb.loc(cbi))
         # the keys map must be loaded after the decision (a discarded map is not carried over)
         load = [bi for bi, t in sb.calls() if callee(t).endswith('load_keys_map_from_disk')]
-        okl = bool(load) and all(any(not sb.dominates(l_, c) for c in cleans) or not cleans for l_ in load) and \
-            all(not any(sb.dominates(l_, c) for c in cleans) for l_ in load)
+        decision_sites = cleans if hbi is None else [hbi]
+        okl = bool(load) and all(not any(sb.dominates(l_, c) for c in decision_sites) for l_ in load)
         ck.ob('C16.b', short(sb.id), 'keys-map-loaded-after-clean', okl,
               'the keys map is read after the invalid-log clean-up' if okl else
               'the keys map is loaded before the clean-up and carried into the fresh log', sb.loc(load[0]) if load else '')
